@@ -39,3 +39,9 @@ func Spend(h wire.Hash, idx uint32, seq uint64) *wire.TxIn {
 	in.Sequence = seq
 	return in
 }
+
+// BareMultiSigScript is a bare 1-of-1 multisig output (a script class no wallet address can own;
+// consensus accepts it in blocks, the wallet must simply skip it).
+func BareMultiSigScript(pub [33]byte) []byte {
+	return append(append([]byte{0x51, 0x21}, pub[:]...), 0x51, 0xae)
+}
